@@ -105,6 +105,19 @@ func RunWorker(shard, of int, seed int64, thorough bool, budget time.Duration, p
 		case !thorough && total <= 170:
 			pb2 = 2
 		}
+		if st.DigestChanges > 0 && useCache {
+			// a read wrote shared memory (a cache, a memo): what such state does to
+			// OTHER reads shows only once earlier operations have filled it, i.e. on
+			// the warmed instance; the bounded pass then runs whatever the length of
+			// the scenario (on the unchanged tree no read writes, so this costs nothing)
+			switch {
+			case pb2 >= 2:
+			case total <= 600:
+				pb2 = 2
+			default:
+				pb2 = 1
+			}
+		}
 		if pb2 > 0 && useCache {
 			// on the shared instance that the solo runs have warmed
 			warm := Build(insts, sp, thorough, false)
